@@ -799,8 +799,15 @@ func (r *Reconciler) reconcileApply(ctx context.Context, proposal *configapi.Pro
 		if config.Status.Applied.Values == nil {
 			config.Status.Applied.Values = make(map[string]*configapi.PathValue)
 		}
-		for path, changeValue := range updatedChangeValues {
-			config.Status.Applied.Values[path] = changeValue
+		// As in the committed values, the deletes of a request take effect before its updates, and a value written
+		// beneath a deleted path makes that path exist again: the delete marker above it is dropped, or the
+		// value would be pruned from the applied values and never pushed again when the target is resynchronized
+		for _, deletes := range []bool{true, false} {
+			for path, changeValue := range updatedChangeValues {
+				if changeValue.Deleted == deletes {
+					applyChangeToConfig(config.Status.Applied.Values, path, changeValue)
+				}
+			}
 		}
 
 		if err := r.configurations.UpdateStatus(ctx, config); err != nil {
